@@ -209,7 +209,7 @@ REPEAT_PATTERNS = [
 ]
 
 
-def _repeat_side(rng, cfg, turns, side, pattern):
+def _repeat_side(rng, cfg, turns, side, pattern, events=True):
     """Impose `pattern` on the `side` ("in": user texts / vin, "out": bot texts / vout) of the clean `turns`."""
     key, tkey = ("vin", "user") if side == "in" else ("vout", "bot")
     rails = cfg["in"] if side == "in" else cfg["out"]
@@ -227,6 +227,8 @@ def _repeat_side(rng, cfg, turns, side, pattern):
         if not (cfg["ver"] == "2.x" and side == "in"):  # 2.x user texts are dictated by the waiting flow
             t[tkey] = txt
         tbl = {i: "a" for i in sorted(set(rails))}
+        if not events:
+            continue
         if action_rails:
             first, last = action_rails[0], action_rails[-1]
             if ev == "f0":
@@ -293,7 +295,8 @@ def repeat_cases(rng, tier, side, patterns=None):
                                 cfg["usaid"] = "something"
                             turns = [clean_turn(rng, cfg, k + 1) for k in range(len(pat))]
                             for sd in sides:
-                                _repeat_side(rng, cfg, turns, sd, pat)
+                                # "both": the user texts repeat like the LLM texts, the events happen in the output stage
+                                _repeat_side(rng, cfg, turns, sd, pat, events=(side != "both" or sd == "out"))
                             cfg["turns"] = turns
                             cases.append(fix_pure(cfg))
     return cases
